@@ -40,6 +40,9 @@ CLAIMS = {
  "C17": ("model_checking",
    "The bytes written by export.JSON() for value trees containing strings/keys of n symbolic runes (every Unicode scalar value; n<=2 quick, <=3 thorough) are read by a strict RFC 8259 reference reader executed on the symbolic output: the document is valid and decodes to the expected structure (arrays in order, objects as key sets, scalars as the JSON string of their string form). Trees: scalar, list, key, value, two symbolic keys (sorting), lazy lists, nested, mixed concrete scalars, maps in merged/replaced/mapped/accepted representation.",
    "string length bound; numbers/bools concrete; reference reader trusted (cross-checked against encoding/json natively on every replay)"),
+ "C19": ("translation_validation",
+   "Generators built through the public funcGen.New[bool]/New[float64] API as example/bool.go and example/minimal.go configure them (keywords let/if added), optimizer enabled and disabled: EVERY boolean expression with at most 2 (thorough 3) operator nodes over {a,b,c,true,false} with ^ = | & ! (4.4k / 225k expressions; rendered alternately fully parenthesised and with minimal parentheses so that the declared priorities decide) is evaluated on SYMBOLIC a,b,c (all 8 assignments at once) against direct evaluation of the harness's own tree, with three permutations of the commutative flags; every float expression with at most 2 operator nodes over {a,b,2,0.5,4} with = < > + - * / ^, unary -, sqr(), implicit multiplication on a 4x4 grid of exactly representable operands (path enumeration); let/if forms and the regrouping shapes c1 op (c2 op x), (x op c1) op c2 for both types with symbolic operands (floats k/4, |k|<16, decided by cvc5).",
+   "expression size bound; float batch jobs are enumerated on a concrete grid (the solver decides only the 'forms' jobs); functions other than sqr/sqrt not varied; the exhaustive 4-node boolean space is outside"),
  "C20": ("model_checking",
    "binning/binning2d/collectBinning through the public language API: element positions and start symbolic on the exact grid {k/16, |k|<2^24}, sizes {1/4,1/2,1,3,10}, counts 0..5 (thorough to 30): the bin that received the element satisfies the documented interval law (solver, cvc5), exactly one bin, descriptions equal the interval ends, power-of-two weights show mass conservation and element-wise placement, collectBinning over every 2-splitting equals the whole; far range: start 0,size 1 and EVERY finite float64.",
    "off-grid inputs where (x-start)/size rounds, NaN, size<=0 are outside; list length <=2 quick/<=4 thorough"),
